@@ -7,7 +7,7 @@ import hashlib
 import json
 import random
 
-from rv import gen, harness, monitors, refsem, vloop
+from rv import gen, harness, materialize, monitors, refsem, vloop
 
 
 def ctl_from(spec, prog=None):
@@ -68,6 +68,8 @@ def run_case(case, built=None, keep_obs=False):
             built.close()
         return {'findings': [monitors.F(['C16', 'C15'], 'valid_program_rejected',
                                         err=repr(built.build_error)[:300])], 'stats': {}, 'refs': {}}
+    # unnamed switches get uuid-suffixed ids: make them a function of the program so that replays are exact
+    harness.reseed_uuid(int(materialize.prog_hash(prog)[:8], 16))
     if not own or case.get('fresh', True):
         built.fresh(events=case.get('events', True), store=case.get('store', False))
     ctl = ctl_from(case.get('ctl'))
